@@ -64,6 +64,16 @@ class Keyed:
         r = self.rows.get(key)
         if r is not None:
             return r
+        # closures are numbered in source order: removing or adding an unrelated closure in front renumbers them. A key that
+        # differs from exactly one row only in its closure numbers is that row.
+        if "{closure#" in key:
+            import re
+
+            norm = re.sub(r"\{closure#\d+\}", "{closure}", key)
+            cands = [k for k in self.rows if "{closure#" in k and re.sub(r"\{closure#\d+\}", "{closure}", k) == norm]
+            if len(cands) == 1:
+                self.followed.append((cands[0], key))
+                return self.rows[cands[0]]
         fn, rest = _fn_of_key(key)
         par = _parent_fn(fn)
         if par in self.table_parents or "::" not in par:
